@@ -6,6 +6,7 @@ package main
 import (
 	"fmt"
 	"reflect"
+	"strings"
 	"time"
 	"unsafe"
 
@@ -111,6 +112,7 @@ func (c *Ctx) repCaseWith(typeKey string, sp Spec, b Bars, reg string) bool {
 	if err != nil {
 		panic(err)
 	}
+	adm = strings.ReplaceAll(adm, "(adm_strategy_", "(adm_report_strategy_") // the report's own constraints (REPORT_EXTRA in bin/gen-props)
 	dates, cols, hung, err := runReport(inst, b, time.Second)
 	if err == nil && hung {
 		dates, cols, hung, err = runReport(inst, b, 4*time.Second)
